@@ -20,7 +20,33 @@ def fill(claim, na):
         "huge arguments; sympy.limit itself.",
         "DESIGN.md section 4, C02",
     )
-    for pid in ("C01", "C03", "C04", "C05", "C06", "C07", "C08", "C09", "C11", "C12", "C13", "C14", "C15", "C16",
+    claim(
+        "C04", "other",
+        "escape analysis over the resolved call graph: raise-site typing, guard dominance, Optional-use and implicit-raiser rules, recursion cycles",
+        "Decides which exception types can leave parse_cdc under an explicit raiser model: every raise statement "
+        "reachable from parse_cdc (call graph with constant-parameter pruning) is a ParsingError/TokenizingError subclass "
+        "or ValueError(msg) or is in a reviewed infeasibility table whose side conditions are themselves checked; every "
+        "buffer access is dominated by a non-emptiness test; every use of an Optional result is None-guarded; int() of "
+        "input floats, dict lookups and list.remove are guarded; the recursive-descent cycle is under a RecursionError "
+        "handler. Behavioural clause 'accepted strings denote well-formed circuits' is decided only through C01 R1.5 / C03 R3.3.",
+        "Trusted: the raiser catalogue (explicit raises, None operands, empty-buffer access, int(inf), missing key, "
+        "list.remove) is complete for this scanner/parser; over-approximate method resolution by name inside the circuit package.",
+        "DESIGN.md section 4, C04",
+    )
+    claim(
+        "C14", "model_checking",
+        "abstract interpretation over a finite order domain: setter bodies compiled from source, all weak orderings enumerated",
+        "The per-key bodies of set_values/set_lower_limits/set_upper_limits are compiled from base.py into transfer "
+        "functions over symbolic values; every weak ordering of the symbols involved (source value/limits, class defaults, "
+        "argument, +-inf) is enumerated, so refusal-leaves-state, l<u, clamping, reset=defaults and copy/deepcopy "
+        "totality+fidelity are decided for every history, not sampled. The copy/reset/parser transfer sequences are read from "
+        "the source too. An explicit-state exploration covers all states reachable with arguments from the symbol set. "
+        "Aliasing rules cover independence of instances and class defaults. No trace is replayed against the implementation.",
+        "Trusted: sa/orders.py (dict read/write, comparison, float(), raise); arguments are non-NaN floats; keys exist; class "
+        "defaults satisfy l0<u0, l0<=v0<=u0. Not decided: float() conversion errors, NaN arguments.",
+        "DESIGN.md section 4, C14",
+    )
+    for pid in ("C01", "C03", "C05", "C06", "C07", "C08", "C09", "C11", "C12", "C13", "C15", "C16",
                 "C17", "C18", "C19", "C20"):
         na(pid, NOT_YET)
     na("C10", "statistical behaviour of a heuristic pipeline (noise tracking, drift margin) on noisy inputs: quantifies over "
